@@ -927,6 +927,60 @@ def _pyval(v):
 
 
 # --------------------------------------------------------------------------------------------
+# exact concrete reals: a Fraction that stays exact when the code mixes it with float literals
+# (the symbolic model treats floats as exact reals; this is the same model on concrete values)
+# --------------------------------------------------------------------------------------------
+
+def _ex(o):
+    if isinstance(o, float):
+        if o != o or o in (math.inf, -math.inf):
+            return o
+        return Fraction(o)
+    try:
+        import numpy as np
+        if isinstance(o, np.floating):
+            return _ex(float(o))
+        if isinstance(o, np.integer):
+            return int(o)
+    except ImportError:  # pragma: no cover
+        pass
+    return o
+
+
+def _wrap(r):
+    if isinstance(r, Fraction) and not isinstance(r, XFrac):
+        return XFrac(r)
+    return r
+
+
+class XFrac(Fraction):
+    __array_priority__ = 1000
+
+    def __add__(self, o): return _wrap(Fraction.__add__(self, _ex(o)))
+    def __radd__(self, o): return _wrap(Fraction.__radd__(self, _ex(o)))
+    def __sub__(self, o): return _wrap(Fraction.__sub__(self, _ex(o)))
+    def __rsub__(self, o): return _wrap(Fraction.__rsub__(self, _ex(o)))
+    def __mul__(self, o): return _wrap(Fraction.__mul__(self, _ex(o)))
+    def __rmul__(self, o): return _wrap(Fraction.__rmul__(self, _ex(o)))
+    def __truediv__(self, o): return _wrap(Fraction.__truediv__(self, _ex(o)))
+    def __rtruediv__(self, o): return _wrap(Fraction.__rtruediv__(self, _ex(o)))
+    def __floordiv__(self, o): return Fraction.__floordiv__(self, _ex(o))
+    def __mod__(self, o): return _wrap(Fraction.__mod__(self, _ex(o)))
+    def __pow__(self, o): return _wrap(Fraction.__pow__(self, o))
+    def __neg__(self): return XFrac(Fraction.__neg__(self))
+    def __pos__(self): return self
+    def __abs__(self): return XFrac(Fraction.__abs__(self))
+    def __hash__(self): return Fraction.__hash__(self)
+    def __eq__(self, o): return Fraction.__eq__(self, o)
+
+    def __repr__(self):
+        return str(self.numerator) if self.denominator == 1 else f"{self.numerator}/{self.denominator}"
+
+    def is_integer(self):
+        return self.denominator == 1
+
+
+# --------------------------------------------------------------------------------------------
 # concrete engine: same harness body on plain numbers
 # --------------------------------------------------------------------------------------------
 
@@ -950,10 +1004,12 @@ class ConcreteEngine:
         v = self.vals[name]
         if isinstance(v, str):
             v = Fraction(v)
-        if isinstance(v, Fraction) and v.denominator == 1:
+        if isint:
             v = int(v)
-        if self.as_float and not isint:
+        elif self.as_float:
             v = float(v)
+        else:
+            v = XFrac(v)
         self.used[name] = v
         return v
 
